@@ -31,7 +31,7 @@ func Gen(rt *rapid.T, p *lgen.Profile) *ProgCase {
 		lay.Spell, lay.Parens, lay.Semis = true, true, true
 		name = "spelled"
 	case 2:
-		lay.Wild, lay.Spell, lay.Semis, lay.Parens = true, true, true, true
+		lay.Wild, lay.Spell, lay.Semis, lay.Parens, lay.HostileComments = true, true, true, true, true
 		lay.CRLF = rapid.IntRange(0, 3).Draw(rt, "crlf")
 		name = "wild"
 	}
